@@ -1,5 +1,7 @@
 import H264.Avcc
 import H264.AvccCtx
+import H264.AvccBuild
+import H264.AvccCtxProofs
 /-! # C09 — A validated AVC configuration record yields exactly its parameter sets, never panics
 
 Model: `Avcc.tryFrom` mirrors `TryFrom<&[u8]>` (all `ck` calls and the walk over the length-prefixed entries);
@@ -7,6 +9,45 @@ Model: `Avcc.tryFrom` mirrors `TryFrom<&[u8]>` (all `ck` calls and the walk over
 the explicit outcome `Res.panic`, so "cannot panic" is a theorem about the model and not an assumption of it. -/
 namespace C09
 open Avcc
+
+/-- **builder round trip**: every record built per ISO/IEC 14496-15 from 0…31 SPS and 0…255 PPS NALs of lengths
+0…65535, arbitrary reserved bits (`b4`, `b5`) and arbitrary trailing extension bytes is accepted … -/
+theorem built_record_accepted (b1 b2 b3 b4 b5 : UInt8) (sps pps : List (List UInt8)) (ext : List UInt8)
+    (ok : BuildOk b5 sps pps) : tryFrom (buildAvcc b1 b2 b3 b4 b5 sps pps ext) = .ok () :=
+  build_accepted b1 b2 b3 b4 b5 sps pps ext ok
+
+/-- … the fixed-field accessors return the stored values … -/
+theorem built_record_fields (b1 b2 b3 b4 b5 : UInt8) (sps pps : List (List UInt8)) (ext : List UInt8)
+    (ok : BuildOk b5 sps pps) :
+    fields (buildAvcc b1 b2 b3 b4 b5 sps pps ext) = .ok ⟨1, sps.length, b1.toNat, b2.toNat, b3.toNat, b4.toNat % 4⟩ :=
+  build_fields b1 b2 b3 b4 b5 sps pps ext ok
+
+/-- … the two iterators yield exactly the stored NAL byte strings, in order … -/
+theorem built_record_iterators (b1 b2 b3 b4 b5 : UInt8) (sps pps : List (List UInt8)) (ext : List UInt8)
+    (ok : BuildOk b5 sps pps) (hs : ∀ n ∈ sps, NalOfType 7 n) (hp : ∀ n ∈ pps, NalOfType 8 n) :
+    spsList (buildAvcc b1 b2 b3 b4 b5 sps pps ext) = .ok sps ∧ ppsList (buildAvcc b1 b2 b3 b4 b5 sps pps ext) = .ok pps :=
+  ⟨build_spsList b1 b2 b3 b4 b5 sps pps ext ok hs, build_ppsList b1 b2 b3 b4 b5 sps pps ext ok hp⟩
+
+/-- … and the created context equals the one obtained by parsing each NAL directly (SPS first, PPS against them) -/
+theorem built_record_context (b1 b2 b3 b4 b5 : UInt8) (sps pps : List (List UInt8)) (ext : List UInt8)
+    (ok : BuildOk b5 sps pps) (hs : ∀ n ∈ sps, NalOfType 7 n) (hp : ∀ n ∈ pps, NalOfType 8 n) :
+    createContext (buildAvcc b1 b2 b3 b4 b5 sps pps ext) =
+      (match foldSps sps [] with
+       | .error e => .error e
+       | .ok sm => match foldPps sm pps [] with
+         | .error e => .error e
+         | .ok pm => .ok ⟨sm, pm⟩) := build_createContext b1 b2 b3 b4 b5 sps pps ext ok hs hp
+
+/-- **truncation**: every proper prefix of a record that ends with its last declared parameter set (any cut inside the
+declared parameter sets, their length fields, the counts or the fixed fields) is refused at construction -/
+theorem truncation_refused (b1 b2 b3 b4 b5 : UInt8) (sps pps : List (List UInt8)) (ok : BuildOk b5 sps pps)
+    (k : Nat) (hk : k < (buildAvcc b1 b2 b3 b4 b5 sps pps []).length) :
+    tryFrom ((buildAvcc b1 b2 b3 b4 b5 sps pps []).take k) ≠ .ok () :=
+  truncated_refused b1 b2 b3 b4 b5 sps pps ok k hk
+
+/-- once construction has succeeded on **any** bytes whatsoever, context creation cannot panic -/
+theorem context_creation_never_panics (d : List UInt8) (h : tryFrom d = .ok ()) :
+    ∀ err, createContext d = .error err → err.isPanic = false := createContext_noPanic d h
 
 /-- once construction has succeeded on **any** bytes whatsoever, neither iterator can index out of bounds, however
 many items are pulled and whatever the entries contain (zero-length entries, wrong NAL types, forbidden bit) -/
@@ -60,5 +101,10 @@ theorem accepted_is_walked (d : List UInt8) (h : tryFrom d = .ok ()) :
 /-- non-vacuity: the record of the suite's `it_works` test header with no parameter sets is accepted -/
 example : tryFrom [0x01, 0x42, 0xc0, 0x1e, 0xff, 0xe0, 0x00] = .ok () := by
   simp [tryFrom, ck, idx, spsEnd, numSps, walk, bind, Res.bind, pure]
+
+/-- non-vacuity: two SPS-typed and one PPS-typed NAL, reserved bits set -/
+example : BuildOk 0xE2 [[0x67, 1, 2], [0x27]] [[0x68, 3]] ∧ NalOfType 7 [0x67, 1, 2] ∧ NalOfType 8 [0x68, 3] := by
+  refine ⟨⟨by decide, by decide, by decide, by decide⟩, ⟨0x67, [1, 2], rfl, by decide, by decide, by decide⟩,
+    ⟨0x68, [3], rfl, by decide, by decide, by decide⟩⟩
 
 end C09
